@@ -309,7 +309,8 @@ func (p *cparser) unary() CExpr {
 	t := p.peek()
 	if t.kind == "op" {
 		switch t.val {
-		case "!", "-", "^":
+		case "!", "-", "^", "*":
+			// `*p`: the value the pointer p points to
 			p.next()
 			return &CUn{t.val, p.unary()}
 		}
